@@ -104,7 +104,10 @@ func (a *inMemoryAdapter) Broadcast(header *parser.PacketHeader, v []any, opts *
 	if err != nil {
 		panic(fmt.Errorf("sio: %w", err))
 	}
+	a.broadcastBuffers(buffers, opts)
+}
 
+func (a *inMemoryAdapter) broadcastBuffers(buffers [][]byte, opts *BroadcastOptions) {
 	a.apply(opts, func(socket Socket) {
 		a.sockets.SendBuffers(socket.ID(), buffers)
 	})
